@@ -115,6 +115,8 @@ def pick_name(obj, sel):
     vs = variables(obj)
     if sel[0] == 'var':
         return vs[sel[1] % len(vs)]
+    if sel[0] == 'under':
+        return '_' + vs[sel[1] % len(vs)]     # the private storage slot of a variable (only generated under strict)
     if sel[0] == 'near':
         nm = vs[sel[1] % len(vs)]
         return nm.swapcase() if nm.swapcase() != nm else nm + 'x'
@@ -188,7 +190,8 @@ def name_selectors(existing_only=False):
     if existing_only:
         return ex
     return st.one_of(ex, ex, ex, st.tuples(st.just('new'), st.sampled_from(['Q', 'x', 'Zed', 'total', 'n', 'status2', 'X_1'])).map(list),
-                     st.tuples(st.just('near'), st.integers(0, 7)).map(list))
+                     st.tuples(st.just('near'), st.integers(0, 7)).map(list),
+                     st.tuples(st.just('under'), st.integers(0, 7)).map(list))
 
 
 def op_strategy(n, *, existing_only=False, with_solve=False):
